@@ -174,6 +174,24 @@ func runC01(p *P, r *R) {
 		c01Pusher(p, r, f)
 	}
 	c01HeaderWriters(p, r, fr)
+	// R01.8 the link is published in the right order: next offset first, hasNext flag afterwards
+	if ln := p.fn("(bufferHeader).linkNext"); ln != nil {
+		nextO, _ := p.pkgConstInt("nextBufferOffset")
+		flagO, _ := p.pkgConstInt("bufferFlagOffset")
+		var stNext, stFlag ssa.Instruction
+		for _, a := range rawAccesses(ln) {
+			if a.Kind == "store" && a.K == nextO && a.Width == 4 {
+				stNext = a.In
+			}
+			if a.Kind == "store" && a.K == flagO && a.Width == 1 {
+				stFlag = a.In
+			}
+		}
+		r.ob("R01.8", "(bufferHeader).linkNext: the next offset is written before the hasNext flag is set", p.pos(ln.Pos()), stNext != nil && stFlag != nil && instrDominates(stNext, stFlag), true,
+			"a popper that sees hasNext follows the next word at once: flag-then-offset hands it a stale link")
+	} else {
+		r.fail("R01.8", "anchor (bufferHeader).linkNext", "", "not found")
+	}
 }
 
 func sliceBase(v ssa.Value) (*ssa.Slice, bool) {
